@@ -81,6 +81,8 @@ type GenesisCfg struct {
 	VotingSecs  int64  `json:"votingSecs"`
 	// NoPrecompiles starts the chain with only one active EVM extension (as a chain before the v1.8.0 upgrade)
 	NoPrecompiles bool `json:"noPrecompiles"`
+	// Loopback: block 1 opens an ICS-20 channel transfer/channel-0 <-> transfer/channel-1 over the localhost connection
+	Loopback bool `json:"loopback"`
 }
 
 func DefaultGenesisCfg(seed int64) GenesisCfg {
@@ -340,7 +342,11 @@ func (n *Node) BeginBlock(b BlockIn) abci.ResponseBeginBlock {
 			Height:    n.Height, Time: n.Time.Add(-time.Second), TotalVotingPower: 0})
 	}
 	n.LastReq = abci.RequestBeginBlock{Header: n.Header, LastCommitInfo: abci.CommitInfo{Votes: votes}, ByzantineValidators: byz}
-	return n.App.BeginBlock(n.LastReq)
+	res := n.App.BeginBlock(n.LastReq)
+	if n.W.Cfg.Loopback && h == 1 {
+		OpenLoopbackChannel(n)
+	}
+	return res
 }
 
 // BeginBlockWith starts the block with a request built by another replica of the same chain
